@@ -21,6 +21,7 @@ const P = "C18"
 type Op struct {
 	K     string `json:"k"` // enqueue finish waitidle watch cancel probe
 	N     int    `json:"n,omitempty"`
+	Nils  int    `json:"nils,omitempty"` // enqueue: bit k set = entry k of the batch is a nil func (tolerated and skipped by the queue)
 	ErrCh bool   `json:"errch,omitempty"`
 	Pre   bool   `json:"pre,omitempty"`
 	Pick  int    `json:"pick,omitempty"`
@@ -40,6 +41,9 @@ func genCase(t *rapid.T) Case {
 		switch op.K {
 		case "enqueue":
 			op.N = rapid.IntRange(0, 4).Draw(t, "n")
+			if op.N > 0 && rapid.IntRange(0, 3).Draw(t, "hasnil") == 0 {
+				op.Nils = rapid.IntRange(1, 1<<op.N-1).Draw(t, "nils")
+			}
 		case "finish", "cancel":
 			op.Pick = rapid.IntRange(0, 5).Draw(t, "pick")
 		case "errsend":
@@ -68,6 +72,8 @@ type job struct {
 	returned  bool
 	release   chan struct{}
 	enqueued  bool // its Enqueue call has returned (or it was an initial element)
+	isNil     bool // a nil func: occupies a queue position, is never executed
+	consumed  bool // nil entry: a worker has taken it (model, grant order)
 	batchDone *bool
 }
 
@@ -143,27 +149,35 @@ func body(c *sched.Ctl, cs Case, v *ev.Verdict) {
 	}
 	// model (advanced in critical-section grant order)
 	mRunning, mQueued := 0, 0
-	admit := func(n int) {
-		for i := 0; i < n; i++ {
+	var mQueue []*job // FIFO of queued entries (the list is pushed and popped in grant order)
+	sawNil := false
+	admit := func(js []*job) {
+		for _, j := range js {
 			if limit <= 0 || mRunning < limit {
 				mRunning++
+				if j.isNil {
+					j.consumed = true // handed to a fresh worker, which skips it
+				}
 			} else {
-				mQueued++
+				mQueue = append(mQueue, j)
 			}
 		}
+		mQueued = len(mQueue)
 	}
 	var initFns []func()
+	var initJobs []*job
 	for i := 0; i < cs.Initial; i++ {
 		j, f := mkJob()
 		j.enqueued = true
 		j.enqSeq = enqCounter
 		enqCounter++
 		initFns = append(initFns, f)
+		initJobs = append(initJobs, j)
 	}
 	q := conc.NewConcurrentQueue(limit, initFns...)
 	if cs.Initial > 0 {
 		// the constructor starts as many as the limit allows and queues the rest
-		admit(cs.Initial)
+		admit(initJobs)
 	}
 	enqOps := map[string][]*job{}
 	var observers []*observer
@@ -181,7 +195,7 @@ func body(c *sched.Ctl, cs Case, v *ev.Verdict) {
 				j.enqSeq = enqCounter
 				enqCounter++
 			}
-			admit(len(js))
+			admit(js)
 			delete(enqOps, tk.Label)
 			for l := range enqOps {
 				_ = l
@@ -189,10 +203,15 @@ func body(c *sched.Ctl, cs Case, v *ev.Verdict) {
 			}
 			return
 		}
-		if strings.HasPrefix(tk.Label, "j") {
-			// a worker's bookkeeping section after a job returned
-			if mQueued > 0 {
-				mQueued--
+		if strings.HasPrefix(tk.Label, "j") || tk.Label == "" {
+			// a worker's bookkeeping section after a job returned (an unlabelled goroutine
+			// is a worker that has only seen nil entries so far)
+			if len(mQueue) > 0 {
+				if j := mQueue[0]; j.isNil {
+					j.consumed = true
+				}
+				mQueue = mQueue[1:]
+				mQueued = len(mQueue)
 			} else {
 				mRunning--
 			}
@@ -219,6 +238,13 @@ func body(c *sched.Ctl, cs Case, v *ev.Verdict) {
 		hm.Lock()
 		enq, started := 0, 0
 		for _, j := range jobs {
+			if j.isNil {
+				// a nil entry waits in the queue like any other until a worker takes it
+				if j.enqSeq >= 0 && !j.consumed {
+					enq++
+				}
+				continue
+			}
 			if j.enqSeq >= 0 {
 				enq++
 			}
@@ -279,6 +305,11 @@ func body(c *sched.Ctl, cs Case, v *ev.Verdict) {
 			var fns []func()
 			for k := 0; k < op.N; k++ {
 				j, f := mkJob()
+				if op.Nils&(1<<k) != 0 {
+					j.isNil, f = true, nil
+					j.finished = true
+					sawNil = true
+				}
 				js = append(js, j)
 				fns = append(fns, f)
 			}
@@ -316,7 +347,7 @@ func body(c *sched.Ctl, cs Case, v *ev.Verdict) {
 			hm.Lock()
 			o := &observer{id: len(observers), kind: op.K, label: "w" + label}
 			for _, j := range jobs {
-				if j.enqueued {
+				if j.enqueued && !j.isNil {
 					o.before = append(o.before, j)
 				}
 			}
@@ -459,6 +490,12 @@ func body(c *sched.Ctl, cs Case, v *ev.Verdict) {
 		quiescent("after drain", true)
 		hm.Lock()
 		for _, j := range jobs {
+			if j.isNil {
+				if j.started != 0 {
+					fail("conc:nil-called", "nil entry %d was executed", j.id)
+				}
+				continue
+			}
 			if j.enqSeq >= 0 && j.started != 1 {
 				fail("conc:job-not-run-once", "job %d (enqueue position %d) ran %d times after everything drained", j.id, j.enqSeq, j.started)
 				break
@@ -484,7 +521,7 @@ func body(c *sched.Ctl, cs Case, v *ev.Verdict) {
 	c.PassThrough()
 	hm.Lock()
 	for _, j := range jobs {
-		if !j.finished {
+		if !j.finished && !j.isNil {
 			j.finished = true
 			j.release <- struct{}{}
 		}
@@ -507,6 +544,9 @@ func body(c *sched.Ctl, cs Case, v *ev.Verdict) {
 	if overlapEnq {
 		v.Class("overlapping-enqueues")
 	}
+	if sawNil {
+		v.Class("nil-entries-in-a-batch")
+	}
 	if limit == 1 {
 		v.Class("limit-1")
 	}
@@ -518,7 +558,7 @@ func body(c *sched.Ctl, cs Case, v *ev.Verdict) {
 func TestC18(t *testing.T) {
 	ev.Drive(t, ev.Runner[Case]{
 		Prop: P,
-		Rule: "limit in {unlimited,1,2,3}, 0..3 initial elements; ops Enqueue(batch 0..4), FinishJob(pick running), WaitIdle/WatchState observers with contexts and error channels, Cancel, Probe; jobs block until finished by the generator; sequential (queued,running) model advanced in critical-section grant order; non-trivial iff >= 2 jobs and (>= 2 ran concurrently or the limit was reached); distinct by hash(case, realised grant trace)",
+		Rule: "limit in {unlimited,1,2,3}, 0..3 initial elements; ops Enqueue(batch 0..4, some entries nil), FinishJob(pick running), WaitIdle/WatchState observers with contexts and error channels, Cancel, Probe; jobs block until finished by the generator; sequential (queued,running) model advanced in critical-section grant order; non-trivial iff >= 2 jobs and (>= 2 ran concurrently or the limit was reached); distinct by hash(case, realised grant trace)",
 		Gen:  genCase,
 		Run:  run,
 	})
